@@ -43,7 +43,9 @@ FirstSyms  == {Ses("new", "none"), Ses("new", "wrong")}
 ChoiceSyms == {[Ses("negotiating", i) EXCEPT !.enc = e, !.comp = c] :
                  i \in {"right", "wrong", "none"}, e \in {"", "none", "tls", "bogus"},
                  c \in {"", "none", "gzip"}}
-              \cup {Ses(s, "right") : s \in OtherStates("negotiating")} \cup Noise
+              \* out-of-order state with an otherwise acceptable choice: fails that check alone
+              \cup {[Ses(s, "right") EXCEPT !.enc = "none", !.comp = "none"] : s \in OtherStates("negotiating")}
+              \cup Noise
 UpgradeSyms == {In("tlsup"), Ses("negotiating", "right"), In("eof")}
 CredSyms   == {[Ses("authenticating", i) EXCEPT !.scheme = s, !.ident = ic[1], !.cred = ic[2]] :
                  i \in {"right", "wrong", "none"}, s \in {"plain", "key"},
@@ -52,7 +54,12 @@ CredSyms   == {[Ses("authenticating", i) EXCEPT !.scheme = s, !.ident = ic[1], !
                  i \in {"right", "wrong", "none"}, s \in {"guest", "transport"}, d \in {"a", "b"}}
               \cup {[Ses("authenticating", i) EXCEPT !.ident = "a"] : i \in {"right", "wrong"}}
               \cup {[Ses("authenticating", "right") EXCEPT !.scheme = "plain", !.ident = "a"]}
-              \cup {Ses(s, "right") : s \in OtherStates("authenticating")} \cup Noise
+              \* out-of-order state with otherwise acceptable credentials: fails that check alone
+              \cup {[Ses(s, "right") EXCEPT !.scheme = "plain", !.ident = "a", !.cred = "p"] :
+                       s \in OtherStates("authenticating")}
+              \cup {[Ses(s, "right") EXCEPT !.scheme = "guest", !.ident = "a", !.cred = "e"] :
+                       s \in OtherStates("authenticating")}
+              \cup Noise
 
 -----------------------------------------------------------------------------
 Stamp(sym) == [sym EXCEPT !.wire = Wire]
